@@ -68,6 +68,20 @@ claim(
     "DESIGN.md section 5 / C08",
 )
 
+claim(
+    "C04",
+    "model_checking",
+    "C-history + A-choice-tree + D-lattice",
+    "exhaustive enumeration of limit-setting call sequences against a reference limit model; choice-tree exploration of bounded samplers; fold-map lattices",
+    "(i) Bounds.reflect/reflect_momenta and the Gibbs boundary/abs proposals (driven through a real chain) on 801-point lattices around 8 boxes of different magnitude and sign, against an exact "
+    "rational-arithmetic symmetric fold: inside, identity inside, symmetric, periodic, momentum sign = parity of folds. (ii) every call sequence of length 4 (quick) / 5 (thorough) over "
+    "{set_boundaries x3, remove, set_non_negative(True/False)} replayed on fresh real GibbsChains; in every state 9 overshooting raw proposals must land in the intersection of the limits "
+    "given by the reference model (last un-removed box, last flag). (iii) Gibbs/Metropolis/PCA(axis+oblique)/HMC(analytic and finite-difference gradient)/Ensemble with bounds: every argument of the "
+    "user's posterior and gradient and every recorded sample, draws up to 50 widths, starts on walls/corner, all random outcomes within a deviation bound.",
+    "finite lattices/alphabets; horizon of 40 posterior evaluations and max_attempts=3 per step in (iii)",
+    "DESIGN.md section 5 / C04",
+)
+
 ALL = [f"C{i:02d}" for i in range(1, 21)]
 PENDING_REASON = "check under construction in this session (design in DESIGN.md section 5); not yet claimed"
 
